@@ -463,7 +463,7 @@ func (e *Eval) stmt(s ast.Stmt, v *env) {
 				val := vals[i]
 				if s.Tok != token.ASSIGN && s.Tok != token.DEFINE {
 					cur := e.expr(l, v)
-					op := map[token.Token]token.Token{token.ADD_ASSIGN: token.ADD, token.SUB_ASSIGN: token.SUB, token.OR_ASSIGN: token.OR, token.AND_ASSIGN: token.AND}[s.Tok]
+					op := map[token.Token]token.Token{token.ADD_ASSIGN: token.ADD, token.SUB_ASSIGN: token.SUB, token.OR_ASSIGN: token.OR, token.AND_ASSIGN: token.AND, token.MUL_ASSIGN: token.MUL, token.REM_ASSIGN: token.REM, token.QUO_ASSIGN: token.QUO}[s.Tok]
 					val = e.binop(op, cur, val, l, s.Rhs[i], s.Pos())
 				}
 				e.assign(l, val, v)
@@ -981,6 +981,14 @@ func (e *Eval) binop(op token.Token, a, b Val, xa, xb ast.Expr, pos token.Pos) V
 		case token.ADD, token.SUB, token.MUL, token.AND, token.OR, token.XOR:
 			if a.K.Kind() == b.K.Kind() {
 				return K(constant.BinaryOp(a.K, op, b.K))
+			}
+		case token.REM:
+			if a.K.Kind() == constant.Int && b.K.Kind() == constant.Int && constant.Sign(b.K) != 0 {
+				return K(constant.BinaryOp(a.K, token.REM, b.K))
+			}
+		case token.QUO:
+			if a.K.Kind() == constant.Int && b.K.Kind() == constant.Int && constant.Sign(b.K) != 0 {
+				return K(constant.BinaryOp(a.K, token.QUO_ASSIGN, b.K))
 			}
 		case token.SHL, token.SHR:
 			if n, ok := constant.Uint64Val(b.K); ok && a.K.Kind() == constant.Int {
